@@ -99,12 +99,12 @@ Qed.
 (* ------------------------------------------------------------------ *)
 (* when the C arithmetic does what the documentation says              *)
 
-(* the conditions under which the unsigned loop does not wrap modulo 2^32 and the
-   "to the end" amount is not the wrapped value (first <= w) *)
+(* the conditions under which the unsigned loop does not wrap modulo 2^32: all numbers below 2^31
+   (what int holds), and first + amount*step below 2^32 *)
 Definition range_ok (r : range) (w : Z) : Prop :=
-  0 <= r_first r /\ (r_step r = 1 \/ r_step r = 2) /\ w < 2147483648 /\
-  (if r_wrap r then 0 <= r_amount r /\ r_step r = 1 /\ r_first r < 2147483648 /\ r_amount r < 2147483648
-   else if r_amount r =? -1 then r_first r <= w
+  0 <= r_first r < 2147483648 /\ (r_step r = 1 \/ r_step r = 2) /\ w < 2147483648 /\
+  (if r_wrap r then 0 <= r_amount r /\ r_step r = 1 /\ r_amount r < 2147483648
+   else if r_amount r =? -1 then True
         else 0 <= r_amount r /\ r_first r + r_amount r * r_step r < UINT).
 
 (* no-wrap: the visited indexes are first + k*step *)
@@ -144,14 +144,16 @@ Proof.
 Qed.
 
 Lemma loop_count_ok r w : 0 <= w -> range_ok r w ->
-  loop_count r w = if r_amount r =? -1 then (w - r_first r + r_step r - 1) / r_step r else r_amount r.
+  loop_count r w = if r_amount r =? -1 then (if r_first r <? w then (w - r_first r + r_step r - 1) / r_step r else 0)
+                   else r_amount r.
 Proof.
   intros Hw (Hf & Hs & Hw2 & H). unfold loop_count.
   destruct (r_wrap r).
-  - destruct H as (Ha & _ & _ & Ha2). destruct (Z.eqb_spec (r_amount r) (-1)); [lia|].
+  - destruct H as (Ha & _ & Ha2). destruct (Z.eqb_spec (r_amount r) (-1)); [lia|].
     unfold u32, UINT. apply Z.mod_small. lia.
   - destruct (Z.eqb_spec (r_amount r) (-1)).
-    + rename H into Hfw. unfold u32, UINT.
+    + unfold u32, UINT. rewrite (Z.mod_small (r_first r)) by lia.
+      destruct (Z.ltb_spec (r_first r) w); [|reflexivity].
       rewrite (Z.mod_small (w - r_first r + r_step r - 1)) by lia.
       rewrite (Z.mod_small (r_step r)) by lia.
       apply Z.mod_small. split; [apply Z.div_pos; lia|].
@@ -170,25 +172,25 @@ Proof.
   intros Hw Hok Hj. pose proof Hok as (Hf & Hs & Hw2 & H).
   rewrite (loop_count_ok r w Hw Hok). unfold sel.
   destruct (r_wrap r) eqn:Ew.
-  - destruct H as (Ha & Hs1 & Hf2 & Ha2). destruct (Z.eqb_spec (r_amount r) (-1)); [lia|].
+  - destruct H as (Ha & Hs1 & Ha2). destruct (Z.eqb_spec (r_amount r) (-1)); [lia|].
     rewrite Hs1. unfold u32, UINT. rewrite (Z.mod_small (r_first r)) by lia.
     rewrite visit_wrap by lia. destruct (Z.ltb_spec 0 w); [|lia]. cbn [andb].
     apply existsb_map_eq.
   - assert (Hu : u32 (r_first r) = r_first r).
     { unfold u32, UINT. apply Z.mod_small. destruct (Z.eqb_spec (r_amount r) (-1)); unfold UINT in *; nia. }
     rewrite Hu.
-    set (cnt := if r_amount r =? -1 then (w - r_first r + r_step r - 1) / r_step r else r_amount r).
+    set (cnt := if r_amount r =? -1 then (if r_first r <? w then (w - r_first r + r_step r - 1) / r_step r else 0) else r_amount r).
     assert (Hc : 0 <= cnt /\ r_first r + cnt * r_step r < UINT).
-    { unfold cnt, UINT in *. destruct (Z.eqb_spec (r_amount r) (-1)); destruct Hs as [Hs|Hs]; rewrite Hs in *; lia. }
+    { unfold cnt, UINT in *. destruct (Z.eqb_spec (r_amount r) (-1)); destruct (Z.ltb_spec (r_first r) w); destruct Hs as [Hs|Hs]; rewrite Hs in *; lia. }
     rewrite visit_nowrap; [|lia|lia|rewrite Z2Nat.id; lia].
     rewrite existsb_map_eq.
     apply eq_iff_eq_true. rewrite existsb_exists. split.
     + intros [k [Hk Ek]]. apply in_seq in Hk. apply Z.eqb_eq in Ek.
       assert (Hkc : Z.of_nat k < cnt) by lia.
-      unfold cnt in Hkc. destruct (Z.eqb_spec (r_amount r) (-1)); destruct Hs as [Hs|Hs]; rewrite Hs in *; lia.
+      unfold cnt in Hkc. destruct (Z.eqb_spec (r_amount r) (-1)); destruct (Z.ltb_spec (r_first r) w); destruct Hs as [Hs|Hs]; rewrite Hs in *; lia.
     + intros Hsel.
       exists (Z.to_nat ((j - r_first r) / r_step r)). rewrite in_seq.
-      unfold cnt. destruct (Z.eqb_spec (r_amount r) (-1)); destruct Hs as [Hs|Hs]; rewrite Hs in *; lia.
+      unfold cnt. destruct (Z.eqb_spec (r_amount r) (-1)); destruct (Z.ltb_spec (r_first r) w); destruct Hs as [Hs|Hs]; rewrite Hs in *; lia.
 Qed.
 
 Lemma visit_nonneg : forall n w wrap step i, 0 <= i -> Forall (fun j => 0 <= j) (visit n w wrap step i).
@@ -276,6 +278,73 @@ Section ChainDenotes.
     - contradiction.
   Qed.
 End ChainDenotes.
+
+(* physical indexes, explicit forms *)
+Section ChainDenotesPhys.
+  Variable LV : Type.
+  Variable objs : LV -> list cobj.
+
+  Definition explicit_range (r : range) : Prop := r_wrap r = false /\ r_amount r <> -1 /\ r_step r = 1.
+
+  Fixpoint chain_ok_phys (c : chain LV) (lv : LV) (rcs rns : bset) : Prop :=
+    match c with
+    | CEnd r => explicit_range r /\ range_ok r (Z.of_nat (List.length (inside_objs rcs rns (objs lv))))
+    | CNext r lv' rest =>
+        explicit_range r /\ range_ok r (Z.of_nat (List.length (inside_objs rcs rns (objs lv))))
+        /\ forall o, In o (inside_objs rcs rns (objs lv)) -> chain_ok_phys rest lv' (co_cs o) (co_nds o)
+    | CFail => True
+    | CAbort => False
+    end.
+
+  Lemma visit_explicit r w : 0 <= w -> explicit_range r -> range_ok r w ->
+    visit (Z.to_nat (loop_count r w)) w (r_wrap r) (r_step r) (u32 (r_first r)) = interval r.
+  Proof.
+    intros Hw (Ew & Ea & Es) Hok. rewrite (loop_count_ok r w Hw Hok).
+    destruct Hok as (Hf & _ & Hw2 & H). rewrite Ew in *. destruct (Z.eqb_spec (r_amount r) (-1)); [contradiction|].
+    rewrite Es in *. unfold u32, UINT in *. rewrite (Z.mod_small (r_first r)) by lia.
+    rewrite visit_nowrap; [|lia|lia|unfold UINT; rewrite Z2Nat.id; lia].
+    unfold interval. apply map_ext. intros k. lia.
+  Qed.
+
+  Lemma eval_chain_denotes_phys : forall c lv rcs rns acc, chain_ok_phys c lv rcs rns ->
+    exists ok, eval_chain LV objs false None c lv rcs rns acc
+               = EAcc ok (union2 acc (denote_phys LV objs c lv rcs rns)).
+  Proof.
+    induction c as [r|r lv' rest IH| |]; intros lv rcs rns acc Hok; cbn [eval_chain denote_phys chain_ok_phys] in *.
+    - destruct Hok as [He Hr]. unfold over_limit. exists true.
+      rewrite (range_loop_sets false _ osets) by (intros; reflexivity).
+      rewrite visit_explicit by (try lia; assumption). reflexivity.
+    - destruct Hok as [He [Hr Hrest]]. unfold over_limit. exists true.
+      rewrite (range_loop_optsets false _ (fun o => denote_phys LV objs rest lv' (co_cs o) (co_nds o))).
+      + rewrite visit_explicit by (try lia; assumption). reflexivity.
+      + intros o Ho a. destruct (IH lv' (co_cs o) (co_nds o) a (Hrest o Ho)) as [ok ->]. reflexivity.
+    - exists false. now rewrite union2_empty_r.
+    - contradiction.
+  Qed.
+End ChainDenotesPhys.
+
+(* what the fixed code (01261ca) guarantees *)
+Lemma loop_count_open_beyond r w : r_amount r = -1 -> 0 <= r_first r < 2147483648 -> w <= r_first r -> loop_count r w = 0.
+Proof.
+  intros Ha Hf Hw. unfold loop_count. rewrite Ha. cbn [Z.eqb]. unfold u32, UINT. rewrite Z.mod_small by lia.
+  destruct (Z.ltb_spec (r_first r) w); [lia|reflexivity].
+Qed.
+
+(* numbers that fit in an int give ranges inside the domain of calc_denotes *)
+Lemma mk_range_ok first amount wrap w : 0 <= w < 2147483648 -> 0 <= first < 2147483648 ->
+  (amount = -1 /\ wrap = false) \/ (0 <= amount /\ first + amount < 2147483648) ->
+  range_ok (mk_range first amount wrap) w.
+Proof.
+  intros Hw Hf Ha. unfold range_ok, mk_range. cbn [r_first r_amount r_step r_wrap].
+  assert (Ef : i32 first = first). { unfold i32, UINT. rewrite Z.mod_small by lia. destruct (Z.ltb_spec first 2147483648); lia. }
+  rewrite Ef. split; [lia|]. split; [now left|]. split; [lia|].
+  destruct Ha as [[-> ->]|[Ha1 Ha2]].
+  - change (i32 (-1)) with (-1). cbn. exact I.
+  - assert (Ea : i32 amount = amount). { unfold i32, UINT. rewrite Z.mod_small by lia. destruct (Z.ltb_spec amount 2147483648); lia. }
+    rewrite Ea. destruct wrap.
+    + repeat split; lia.
+    + destruct (Z.eqb_spec amount (-1)); [lia|]. unfold UINT. split; lia.
+Qed.
 
 (* ------------------------------------------------------------------ *)
 (* a list of locations is the fold of the operators                    *)
@@ -460,13 +529,13 @@ Proof.
       destruct (strtol_ok str l (e + 1) 10 Hc) as [last [e2 [He2 Hel2]]]; [lia|]. rewrite He2. cbn [bind].
       destruct (cstring_rdr str l e2 Hc) as [c2 [Hc2 _]]; [lia|]. rewrite Hc2. cbn [bind].
       destruct (negb (c2 =? 0)); [eexists; split; [reflexivity|exact Hd]|].
-      destruct (e2 =? e + 1); eexists; (split; [reflexivity|exact Hd]).
+      destruct (e2 =? e + 1); [|destruct (last <? first)%Z]; eexists; (split; [reflexivity|exact Hd]).
     + destruct (N.eqb_spec ce C_COLON) as [Ec|_].
       * assert (e < l). { destruct (N.eq_dec e l) as [->|]; [|lia]. specialize (Hz eq_refl). subst ce. discriminate. }
         destruct (strtol_ok str l (e + 1) 10 Hc) as [am [e2 [He2 Hel2]]]; [lia|]. rewrite He2. cbn [bind].
         destruct (cstring_rdr str l e2 Hc) as [c2 [Hc2 _]]; [lia|]. rewrite Hc2. cbn [bind].
         destruct (negb (c2 =? 0)); [eexists; split; [reflexivity|exact Hd]|].
-        destruct (e2 =? e + 1); eexists; (split; [reflexivity|exact Hd]).
+        destruct (e2 =? e + 1); [|destruct (am <? 0)%Z]; eexists; (split; [reflexivity|exact Hd]).
       * destruct (negb (ce =? 0)); eexists; (split; [reflexivity|exact Hd]).
 Qed.
 
@@ -510,4 +579,10 @@ Proof.
   - destruct (parse_range_total s n p Hs Hp) as [r [Hr _]]. now exists r.
   - apply (parse_chain_total LV resolve s n Hs Hres); [exact Hp|].
     pose proof (cstring_len s n Hs) as H. unfold len in H. lia.
+Qed.
+
+Lemma nul_terminated_cstr_trunc : nul_terminated (cstr "0:4294967295").
+Proof.
+  exists 12%N. change (cstr "0:4294967295") with ([48; 58; 52; 50; 57; 52; 57; 54; 55; 50; 57; 53] ++ 0 :: [])%N.
+  apply (cstring_app [48; 58; 52; 50; 57; 52; 57; 54; 55; 50; 57; 53]%N []). repeat constructor; discriminate.
 Qed.
